@@ -9,7 +9,7 @@ def specSnpsOutput (hard : Bool) (ref : List Nat) (recs : List (String × List N
   "query,SNPs\n" ++ String.join (recs.map fun r => snpsLine r.1 (specSnps hard ref r.2))
 
 def recsOf (c : Case) : List (String × List Nat) :=
-  (c.list "names").zip ((c.list "seqs").map strBytes)
+  (c.names "names").zip ((c.list "seqs").map strBytes)
 
 /-- aggregate table from the specification's rows: each distinct SNP once, frequency = rows containing it / rows -/
 def specSnpsAggregate (hard : Bool) (thrNum thrDen : Nat) (ref : List Nat) (recs : List (String × List Nat)) : String :=
